@@ -1,4 +1,5 @@
 import CobaVerif.Model.C10
+import CobaVerif.Generated.C10Consts
 namespace Coba.C10
 
 theorem distinctB_iff (as : List Val) : distinctB as = true ↔ Distinct as := by
@@ -2302,5 +2303,286 @@ theorem batchsafe_commutes' (cfg : Cfg) (st : Step) (s : List Inter) (k : Nat) (
   | unbatch => exact absurd rfl hu
   | _ => rfl
 
+
+
+/-! ## Phase 4 -/
+
+
+
+
+/-! ### Noise end to end for scalar (numeric) actions -/
+
+theorem noisesList_none : ∀ (orc : List Rat) (as : List Val), noisesList none orc as = .ok (orc, as)
+  | orc, [] => by simp [noisesList]
+  | orc, a :: as => by simp [noisesList, noises, noisesList_none orc as]
+
+theorem nums_of_all_isNum : ∀ (as : List Val), as.all isNum = true → ∃ xs : List Rat, as = xs.map Val.num
+  | [], _ => ⟨[], rfl⟩
+  | a :: as, h => by
+    simp only [List.all_cons, Bool.and_eq_true] at h
+    obtain ⟨xs, hxs⟩ := nums_of_all_isNum as h.2
+    cases a with
+    | num x => exact ⟨x :: xs, by simp [hxs]⟩
+    | _ => simp [isNum] at h
+
+/-- an injective noiser keeps a set of numbers a set -/
+theorem injNoiser_nums_distinct (na : Option NoiseSpec) (hinj : injNoiser na = true) (orc o' : List Rat) (as out : List Val)
+    (hnum : as.all isNum = true) (hd : Distinct as) (h : noisesList na orc as = .ok (o', out)) : Distinct out := by
+  cases na with
+  | none => rw [noisesList_none] at h; cases h; exact hd
+  | some ns =>
+    cases ns with
+    | drawn => simp [injNoiser] at hinj
+    | affine m b =>
+      have hm : m ≠ 0 := by simpa [injNoiser] using hinj
+      obtain ⟨xs, rfl⟩ := nums_of_all_isNum as hnum
+      exact noise_affine_nums_distinct' m b hm orc o' xs out h hd
+
+/-- the action lists of Noise's plans are the noisy images of the interactions' action lists -/
+theorem noise_go_actions (cfg : Cfg) (nc na : Option NoiseSpec) (rC fC : Bool) : ∀ (s : List Inter) (orc : List Rat) (ps : List Plan),
+    noisePlans.go cfg nc na rC fC orc s = .ok ps →
+    ∀ p ∈ ps, ∀ as', p.actions = some as' → ∃ I ∈ s, ∃ as o o', I.actions = some as ∧ noisesList na o as = .ok (o', as')
+  | [], orc, ps, h => by
+    simp [noisePlans.go] at h; subst h; intro p hp; cases hp
+  | I :: rest, orc, ps, h => by
+    simp only [noisePlans.go] at h
+    cases hc : noises nc orc I.context with
+    | error e => simp [hc] at h
+    | ok pc =>
+      obtain ⟨orc1, ctx⟩ := pc
+      simp only [hc] at h
+      cases hacts : I.actions with
+      | none =>
+        simp only [hacts] at h
+        cases hgo : noisePlans.go cfg nc na rC fC orc1 rest with
+        | error e => simp [hgo] at h
+        | ok ps' =>
+          simp [hgo] at h
+          subst h
+          intro p hp as' hpa
+          rcases List.mem_cons.mp hp with rfl | hp'
+          · simp at hpa
+          · obtain ⟨J, hJ, r⟩ := noise_go_actions cfg nc na rC fC rest orc1 ps' hgo p hp' as' hpa
+            exact ⟨J, by simp [hJ], r⟩
+      | some o =>
+        simp only [hacts] at h
+        cases hn : noisesList na orc1 o with
+        | error e => simp [hn] at h
+        | ok pn =>
+          obtain ⟨orc2, n⟩ := pn
+          simp only [hn] at h
+          cases hgo : noisePlans.go cfg nc na rC fC orc2 rest with
+          | error e => simp [hgo] at h
+          | ok ps' =>
+            simp [hgo] at h
+            subst h
+            intro p hp as' hpa
+            rcases List.mem_cons.mp hp with rfl | hp'
+            · simp at hpa; subst hpa
+              exact ⟨I, by simp, o, orc1, orc2, hacts, hn⟩
+            · obtain ⟨J, hJ, r⟩ := noise_go_actions cfg nc na rC fC rest orc2 ps' hgo p hp' as' hpa
+              exact ⟨J, by simp [hJ], r⟩
+
+theorem noise_scalar_aligned' (nc na : Option NoiseSpec) (orc : List Rat) (s s' : List Inter)
+    (hinj : injNoiser na = true) (hh : noiseScalarHypB s = true)
+    (hrun : runPrim Cfg.fixed (.noise nc na orc) s = .ok s') : alignedStreamB s s' = true := by
+  simp only [noiseScalarHypB, Bool.and_eq_true, List.all_eq_true] at hh
+  obtain ⟨hself, hall⟩ := hh
+  simp only [runPrim, plansOf, noisePlans] at hrun
+  cases hgo : noisePlans.go Cfg.fixed nc na (firstCallable (·.rewards) s) (firstCallable (·.feedbacks) s) orc s with
+  | error e => simp [hgo] at hrun
+  | ok ps =>
+    simp only [hgo] at hrun
+    refine applyPlans_aligned ?_ hrun
+    refine noise_go_hyp nc na _ _ s orc ps hgo (alignedStreamB_self_mem hself) ?_ ?_ ?_
+    · intro I hI r hr hcal
+      have := (hall I hI).1
+      simp only [hr, hcal, Bool.not_true, Bool.false_or] at this
+      exact this
+    · intro I hI hacts
+      have := (hall I hI).2
+      simp only [hacts] at this
+      cases hr : I.rewards with
+      | none => rfl
+      | some r => simp [hr] at this
+    · intro p hp as' hpa
+      obtain ⟨I, hI, as, o, o', hacts, hn⟩ := noise_go_actions Cfg.fixed nc na _ _ s orc ps hgo p hp as' hpa
+      have := (hall I hI).2
+      simp only [hacts, Bool.and_eq_true] at this
+      exact injNoiser_nums_distinct na hinj o o' as as' this.1 ((distinctB_iff _).mp this.2) hn
+
+/-! ### Cycle: a negative theorem -/
+
+theorem obsEq_map_ok (a b : List Rat) : obsEq (a.map Except.ok) (b.map Except.ok) = true → a = b := by
+  intro h
+  obtain ⟨rs, h1, h2⟩ := (obsEq_iff _ _).mp h
+  rw [map_ok_injective h1, map_ok_injective h2]
+
+theorem cycle_misaligns' {n : Nat} {r r' : Rew} {acts : List Val} (vals : List Rat)
+    (h : rekey (.rotate n) r acts acts = .ok r') (hd : Distinct acts)
+    (hv : obsOf r acts = vals.map Except.ok) (hne : rotList n vals ≠ vals) :
+    obsEq (obsOf r acts) (obsOf r' acts) = false := by
+  obtain ⟨vals', h1, h2⟩ := cycle_rekey_spec' h hd
+  have : vals' = vals := map_ok_injective (h1.symm.trans hv)
+  subst this
+  cases hb : obsEq (obsOf r acts) (obsOf r' acts) with
+  | false => rfl
+  | true =>
+    rw [h1, h2] at hb
+    exact absurd (obsEq_map_ok _ _ hb).symm hne
+
+theorem cycle_outside_hyp' (n : Nat) (r : Rew) (o nw : List Val) : targetHypB (.rotate n) (some r) o nw = false := by
+  simp [targetHypB]
+
+
+
+/-! ### Python `==` as an equivalence on well-formed lazy-free values -/
+
+theorem lookupS_mem : ∀ (d : List (String × Val)) (k : String) (w : Val), lookupS k d = some w → (k, w) ∈ d
+  | [], k, w, h => by simp [lookupS] at h
+  | (k0, v0) :: r, k, w, h => by
+    simp only [lookupS] at h
+    by_cases hk : (k0 == k) = true
+    · simp only [hk, if_true, Option.some.injEq] at h
+      have : k0 = k := by simpa using hk
+      subst this; subst h; simp
+    · simp only [hk] at h
+      exact List.mem_cons_of_mem _ (lookupS_mem r k w h)
+
+theorem pyEqD_mem : ∀ (d e : List (String × Val)), pyEqD d e = true → ∀ k w, (k, w) ∈ d →
+    ∃ u, lookupS k e = some u ∧ pyEq w u = true
+  | [], e, _, k, w, hm => by cases hm
+  | (k0, v0) :: r, e, h, k, w, hm => by
+    simp only [pyEqD, Bool.and_eq_true] at h
+    rcases List.mem_cons.mp hm with heq | hm'
+    · have hk : k = k0 := (Prod.mk.inj heq).1
+      have hw : w = v0 := (Prod.mk.inj heq).2
+      rw [hk, hw]
+      cases hl : lookupS k0 e with
+      | none => simp [hl] at h
+      | some u => simp only [hl] at h; exact ⟨u, rfl, h.1⟩
+    · exact pyEqD_mem r e h.2 k w hm'
+
+theorem wfNoLazyD_mem : ∀ (d : List (String × Val)), wfNoLazyD d = true → ∀ k w, (k, w) ∈ d → wfNoLazy w = true
+  | [], _, k, w, hm => by cases hm
+  | (k0, v0) :: r, h, k, w, hm => by
+    simp only [wfNoLazyD, Bool.and_eq_true] at h
+    rcases List.mem_cons.mp hm with heq | hm'
+    · cases heq; exact h.1
+    · exact wfNoLazyD_mem r h.2 k w hm'
+
+mutual
+theorem pyEq_trans_wf : ∀ (a b c : Val), wfNoLazy a = true → wfNoLazy b = true → wfNoLazy c = true →
+    pyEq a b = true → pyEq b c = true → pyEq a c = true
+  | .none, b, c, _, _, _, h1, h2 => by cases b <;> cases c <;> simp_all [pyEq]
+  | .num q, b, c, _, _, _, h1, h2 => by cases b <;> cases c <;> simp_all [pyEq]
+  | .str s, b, c, _, hb, hc, h1, h2 => by cases b <;> cases c <;> simp_all [pyEq, wfNoLazy]
+  | .cat s l, b, c, _, hb, hc, h1, h2 => by cases b <;> cases c <;> simp_all [pyEq, wfNoLazy]
+  | .list xs, b, c, ha, hb, hc, h1, h2 => by
+    cases b with
+    | list ys =>
+      cases c with
+      | list zs =>
+        simp only [wfNoLazy] at ha hb hc
+        simp only [pyEq] at h1 h2 ⊢
+        exact pyEqL_trans_wf xs ys zs ha hb hc h1 h2
+      | lazy _ _ => simp [wfNoLazy] at hc
+      | _ => simp [pyEq] at h2
+    | lazy _ _ => simp [wfNoLazy] at hb
+    | _ => simp [pyEq] at h1
+  | .tuple xs, b, c, ha, hb, hc, h1, h2 => by
+    cases b with
+    | tuple ys =>
+      cases c with
+      | tuple zs =>
+        simp only [wfNoLazy] at ha hb hc
+        simp only [pyEq] at h1 h2 ⊢
+        exact pyEqL_trans_wf xs ys zs ha hb hc h1 h2
+      | lazy _ _ => simp [wfNoLazy] at hc
+      | _ => simp [pyEq] at h2
+    | lazy _ _ => simp [wfNoLazy] at hb
+    | _ => simp [pyEq] at h1
+  | .dict kvs, b, c, ha, hb, hc, h1, h2 => by
+    cases b with
+    | dict d =>
+      cases c with
+      | dict e =>
+        simp only [wfNoLazy, Bool.and_eq_true] at ha hb hc
+        simp only [pyEq, Bool.and_eq_true, beq_iff_eq] at h1 h2 ⊢
+        refine ⟨h1.1.trans h2.1, ?_⟩
+        exact pyEqD_trans_wf kvs d e ha.2 hb.2 hc.2 h1.2 h2.2
+      | lazy _ _ => simp [wfNoLazy] at hc
+      | _ => simp [pyEq] at h2
+    | lazy _ _ => simp [wfNoLazy] at hb
+    | _ => simp [pyEq] at h1
+  | .lazy _ _, _, _, ha, _, _, _, _ => by simp [wfNoLazy] at ha
+theorem pyEqL_trans_wf : ∀ (xs ys zs : List Val), wfNoLazyL xs = true → wfNoLazyL ys = true → wfNoLazyL zs = true →
+    pyEqL xs ys = true → pyEqL ys zs = true → pyEqL xs zs = true
+  | [], ys, zs, _, _, _, h1, h2 => by
+    cases ys with
+    | nil => exact h2
+    | cons y ys => simp [pyEqL] at h1
+  | x :: xs, ys, zs, ha, hb, hc, h1, h2 => by
+    cases ys with
+    | nil => simp [pyEqL] at h1
+    | cons y ys =>
+      cases zs with
+      | nil => simp [pyEqL] at h2
+      | cons z zs =>
+        simp only [wfNoLazyL, Bool.and_eq_true] at ha hb hc
+        simp only [pyEqL_cons, Bool.and_eq_true] at h1 h2 ⊢
+        exact ⟨pyEq_trans_wf x y z ha.1 hb.1 hc.1 h1.1 h2.1, pyEqL_trans_wf xs ys zs ha.2 hb.2 hc.2 h1.2 h2.2⟩
+theorem pyEqD_trans_wf : ∀ (r d e : List (String × Val)), wfNoLazyD r = true → wfNoLazyD d = true → wfNoLazyD e = true →
+    pyEqD r d = true → pyEqD d e = true → pyEqD r e = true
+  | [], d, e, _, _, _, _, _ => by simp [pyEqD]
+  | (k, v) :: r, d, e, ha, hb, hc, h1, h2 => by
+    simp only [wfNoLazyD, Bool.and_eq_true] at ha
+    simp only [pyEqD, Bool.and_eq_true] at h1 ⊢
+    cases hl : lookupS k d with
+    | none => simp [hl] at h1
+    | some w =>
+      simp only [hl] at h1
+      have hmem := lookupS_mem d k w hl
+      obtain ⟨u, hu, hwu⟩ := pyEqD_mem d e h2 k w hmem
+      have hwf_w := wfNoLazyD_mem d hb k w hmem
+      have hwf_u := wfNoLazyD_mem e hc k u (lookupS_mem e k u hu)
+      refine ⟨?_, pyEqD_trans_wf r d e ha.2 hb hc h1.2 h2⟩
+      simp only [hu]
+      exact pyEq_trans_wf v w u ha.1 hwf_w hwf_u h1.1 hwu
+end
+
+theorem pyEq_not_transitive_lazy' :
+    pyEq wEqNotTrans.1 wEqNotTrans.2.1 = true ∧ pyEq wEqNotTrans.2.1 wEqNotTrans.2.2 = true ∧ pyEq wEqNotTrans.1 wEqNotTrans.2.2 = false := by
+  decide +kernel
+
+
+/-! ### translator tie: the constants the model hard-wires, as named definitions (the generated file is compared with these) -/
+
+theorem initDState_seed (n : Nat) :
+    initDState n = { table := [], fresh := lookupStream n (if n == 0 then 0 else 192 / n + 2) (Coba.C05.normInt densifySeed) } := rfl
+
+theorem rotList_shift {α} (n : Nat) (l : List α) :
+    rotList n l = if n == 0 then l else l.drop (n - cycleShift) ++ l.take (n - cycleShift) := rfl
+
+theorem sparsify_headers_used (cfg : Cfg) (c a : Bool) (I : Inter) :
+    sparsifyPlans cfg c a [I] = .ok [
+      { context := if c then makeSparse (sparsifyHeaders.getD 0 "") I.context else I.context,
+        actions := if a then I.actions.map (·.map (makeSparse (sparsifyHeaders.getD 1 ""))) else I.actions,
+        action := if a then I.action.map (makeSparse (sparsifyHeaders.getD 2 "")) else I.action,
+        polR := if (cfg.fixRekey && a && (match I.actions with | some as => as.any sparseConverts | none => false)) && firstCallable (·.rewards) [I] then .generic else .keep,
+        polF := if (cfg.fixRekey && a && (match I.actions with | some as => as.any sparseConverts | none => false)) && firstCallable (·.feedbacks) [I] then .generic else .keep }] := rfl
+
+theorem cycle_after_used :
+    (match cyclePlans 1 (wCycle ++ wCycle ++ wCycle) with
+     | .ok ps => ps.map (fun p => p.polR == .rotate 3)
+     | .error _ => []) = [cycleRotatesAt 1 0, cycleRotatesAt 1 1, cycleRotatesAt 1 2] := by decide +kernel
+
+theorem source_constants_match' :
+    Coba.Generated.C10.finalizeReprModes = finalizeReprModes ∧ Coba.Generated.C10.sparsifyHeaders = sparsifyHeaders ∧
+    Coba.Generated.C10.densifySeed = densifySeed ∧ Coba.Generated.C10.cycleShifts = [cycleShift, cycleShift] ∧
+    Coba.Generated.C10.cycleAfterInclusive = cycleRotatesAt 0 0 := by decide +kernel
+
+theorem cycle_source_getElem? {α} (l : List α) (hl : 0 < l.length) (j : Nat) (hj : j < l.length) :
+    (rotList l.length l)[j]? = l[cycleSource l.length j]? := rotList_getElem? l hl j hj
 
 end Coba.C10
